@@ -263,7 +263,11 @@ func SelfTest(r *core.Run, cfg core.LoadConfig) {
 			delete(engineOnly.byProg, prog)
 			engineOnly.Unlock()
 			engCacheMu.Lock()
-			delete(engCache, prog)
+			for k := range engCache {
+				if k.prog == prog {
+					delete(engCache, k)
+				}
+			}
 			engCacheMu.Unlock()
 			prog.Release()
 			releaseGlobalUses(prog)
